@@ -346,7 +346,10 @@ def gen_history(rng, positions, length):
         if outstanding:
             # only stop and isready may be sent; or wait for the bestmove (finite searches)
             r = rng.random()
-            if r < 0.06:
+            if r < 0.03:
+                # input the protocol says to ignore: an empty line, blanks, an unknown word - the engine must carry on
+                steps.append({"cmd": rng.choice(["", "   ", "\t", "xyzzy"]), "kind": "noise", "gap": gap})
+            elif r < 0.06:
                 # 'debug' may be sent at any time, also while the engine is thinking
                 steps.append({"cmd": rng.choice(["debug on", "debug off"]), "kind": "debug", "gap": gap})
             elif r < 0.25:
@@ -361,7 +364,9 @@ def gen_history(rng, positions, length):
                 outstanding = False
             continue
         r = rng.random()
-        if r < 0.03:
+        if r < 0.015:
+            steps.append({"cmd": rng.choice(["", "   ", "\t", "xyzzy"]), "kind": "noise", "gap": gap})
+        elif r < 0.03:
             steps.append({"cmd": rng.choice(["debug on", "debug off"]), "kind": "debug", "gap": gap})
         elif r < 0.05:
             # a GUI may ask for the identification again; the answer ends with uciok
@@ -580,6 +585,8 @@ def run_history(binary, steps, delays, start_legal, ready_timeout=8.0, trace=Tru
                         break
                 if pending:
                     classes.add("isready_during_search")
+            elif kind == "noise":
+                classes.add("ignorable_input_during_search" if len(count_lines("bestmove")) < len(pending) else "ignorable_input_when_idle")
             elif kind == "debug":
                 classes.add("debug_during_search" if len(count_lines("bestmove")) < len(pending) else "debug_when_idle")
             elif kind == "uci":
@@ -694,6 +701,8 @@ def c05_stage(out, tier, seed):
         # a second search started inside the first one's bestmove-to-exit window, questions once that window has closed
         ["go depth 1", None, "go infinite", ("isready", 0.09), "stop", None, "isready"],
         ["go depth 1", None, "go infinite", ("isready", 0.0), ("isready", 0.09), "stop", None, "isready"],
+        # an empty line between commands, idle and while searching
+        ["", "isready", "go infinite", "", "isready", "stop", None, "", "isready"],
         # a search that is over at once (a single legal move), on the clock, then 'stop' - after the move and before it
         ["position fen 6k1/5ppp/8/8/8/8/5PBP/r5K1 w - - 0 1", "go wtime 1000 btime 1000", None, "stop", "isready", "go wtime 1000 btime 1000", "stop", None, "isready"],
         ["position fen 7k/8/8/8/8/8/4q3/7K w - - 3 9", "go movetime 100", "stop", None, "stop", "isready", "go depth 3", None, "stop", "isready"],
@@ -706,7 +715,7 @@ def c05_stage(out, tier, seed):
                 steps.append({"kind": "await_bestmove"})
             else:
                 c, gap = c if isinstance(c, tuple) else (c, 0.0)
-                k = c.split()[0]
+                k = (c.split() or ["noise"])[0]
                 steps.append({"cmd": c, "kind": "go" if k == "go" else k, "gap": gap, "infinite": c == "go infinite"})
                 if k == "position":
                     steps[-1]["pos"] = {"legal": None}
